@@ -85,8 +85,12 @@ def build(race):
             sys.stdout.write(p.stderr[-6000:])
             die("build pipeline failed")
         os.makedirs(cdir, exist_ok=True)
-        shutil.copy(os.path.join(scratch, "sim.test"), binp)
-        shutil.copy(os.path.join(scratch, "sites.json"), os.path.join(cdir, "sites.json"))
+        # published by renaming: two checks that build the same tree at the same time must not
+        # write into a binary the other one is already running
+        for name in ("sites.json", "sim.test"):
+            tmpn = os.path.join(cdir, ".%s.%d" % (name, os.getpid()))
+            shutil.copy(os.path.join(scratch, name), tmpn)
+            os.replace(tmpn, os.path.join(cdir, name))
         print("built harness for tree %s in %.1fs" % (th, time.time() - t0), flush=True)
         # keep the cache small: drop all but the 6 newest binaries
         root = os.path.join(VERIF, ".cache", "bin")
